@@ -308,9 +308,15 @@ func genC08(c *Ctx) {
 	var files [][]byte
 	var names []string
 	for it := 0; it < c.N(40, 600); it++ {
-		pf := genProgFile(c.R, 1+c.R.Intn(3), 40)
-		files = append(files, pf.bytes)
-		names = append(names, fmt.Sprintf("generated#%d(tracks=%d,mdatFirst=%v,large=%v,co64=%v)", it, len(pf.tracks), pf.mdatFirst, pf.largeMdat, pf.co64))
+		pf0 := genProgFile(c.R, 1+c.R.Intn(3), 40)
+		vs := []*progFile{pf0}
+		if it%3 == 0 {
+			vs = pf0.variants(c.R)
+		}
+		for _, pf := range vs {
+			files = append(files, pf.bytes)
+			names = append(names, fmt.Sprintf("generated#%d(tracks=%d,mdatFirst=%v,large=%v,co64=%v,largeFree=%v,trailingMdat=%v)", it, len(pf.tracks), pf.mdatFirst, pf.largeMdat, pf.co64, pf.largeFree, pf.trailingMdat))
+		}
 	}
 	repo := os.Getenv("VERIF_REPO")
 	if repo == "" {
@@ -357,6 +363,13 @@ func compareLazyEager(d []byte) string {
 		return "different number of top-level boxes"
 	}
 	var pos uint64
+	var trueMdats []topBox
+	for _, b := range walkTop(d) {
+		if b.typ == "mdat" {
+			trueMdats = append(trueMdats, b)
+		}
+	}
+	mdatIdx := 0
 	for i := range fe.Children {
 		a, b := fe.Children[i], fl.Children[i]
 		if a.Type() != b.Type() || a.Size() != b.Size() {
@@ -364,17 +377,30 @@ func compareLazyEager(d []byte) string {
 		}
 		if ma, ok := a.(*mp4.MdatBox); ok {
 			mb := b.(*mp4.MdatBox)
-			if ma.StartPos != mb.StartPos || ma.StartPos != pos || ma.PayloadAbsoluteOffset() != mb.PayloadAbsoluteOffset() {
-				return fmt.Sprintf("mdat positions: eager %d lazy %d expected %d", ma.StartPos, mb.StartPos, pos)
+			if ma.StartPos != mb.StartPos || ma.PayloadAbsoluteOffset() != mb.PayloadAbsoluteOffset() {
+				return fmt.Sprintf("mdat positions: eager %d lazy %d", ma.StartPos, mb.StartPos)
 			}
+			// the real position in the file (earlier boxes with a 16-byte header re-encode 8 bytes shorter, so the
+			// running sum of Size() is not a file position); it must hold an mdat header
+			pos = ma.StartPos
+			// the original box = the next mdat of an independent top-level walk of the file bytes
+			if mdatIdx >= len(trueMdats) {
+				return "more mdat boxes decoded than the file holds"
+			}
+			tm := trueMdats[mdatIdx]
+			mdatIdx++
 			// header + payload == original box
 			var buf bytes.Buffer
 			if err := mb.Encode(&buf); err != nil {
 				return "lazy mdat encode: " + err.Error()
 			}
-			whole := append(buf.Bytes(), d[mb.PayloadAbsoluteOffset():pos+mb.Size()]...)
-			if !bytes.Equal(whole, d[pos:pos+a.Size()]) {
-				return "lazy mdat header + payload != original box"
+			pe := pos + mb.Size()
+			if mb.PayloadAbsoluteOffset() > pe || pe > uint64(len(d)) {
+				return fmt.Sprintf("lazy mdat extent [%d,%d) outside the file", mb.PayloadAbsoluteOffset(), pe)
+			}
+			whole := append(buf.Bytes(), d[mb.PayloadAbsoluteOffset():pe]...)
+			if !bytes.Equal(whole, d[tm.off:tm.off+tm.size]) {
+				return fmt.Sprintf("lazy mdat header + payload copied from the reported position %d != the original box at %d", mb.PayloadAbsoluteOffset(), tm.off)
 			}
 			// whole payload through both modes
 			if ma.Size() > ma.HeaderSize() {
